@@ -235,6 +235,29 @@ def fix_after_failed_case(lab, K):
     return dict(K=K, variant='fix-after-failed', events=events, problems=probs, liveness=live, rc=rc2, ties=ties, bads=sorted(n_ for n_, bad in revs.values() if bad))
 
 
+def padded_case(lab, num):
+    """the POLICY file of the repository holds a number padded by hand (leading zeros): the next number is still max(file, link) + 1, decimal"""
+    home = lab.fresh('pad' + num)
+    probs, live = [], []
+    lab.sh(home, 'cd $HOME/netspoc && git pull --quiet && echo "# p%s # padded by hand" > POLICY && echo "network:n1 = { ip = 10.1.1.0/24; } # PAD" > topology && '
+                 'git add --all && git commit --quiet -m test && git push --quiet' % num)
+    events = ['commit C1 with POLICY file "# p%s"' % num]
+    for i in range(2):
+        rc, _ = lab.run(home, 0)
+        events.append('undisturbed run (rc=%s)' % rc)
+    probs += safety(lab, home, 'p1', 'after the undisturbed runs')
+    cur = lab.current(home)
+    want = 'p%d' % (int(num) + 1)
+    if cur != want:
+        probs.append('policy number: the POLICY file says p%s and the link p1, the next policy must be %s (maximum + 1), but current is %s' % (num, want, cur))
+    remote = lab.sh(home, 'git -C $HOME/netspoc.git rev-parse master').stdout.strip()
+    local = lab.sh(home, 'git -C $HOME/policies/%s/src rev-parse HEAD' % cur).stdout.strip() if cur else ''
+    if cur is None or not (local == remote or lab.compiled_from(home, cur) == remote):
+        live.append('after two undisturbed runs current (%s) is not the newest compiling revision' % cur)
+    shutil.rmtree(home, ignore_errors=True)
+    return dict(K=0, variant='padded-' + num, events=events, problems=probs, liveness=live, rc=rc)
+
+
 def kill_case(lab, K, variant):
     home = lab.fresh('%s%d' % (variant, K))
     events, probs = [], []
@@ -383,6 +406,7 @@ def main(ctx):
             res = [r for r in ex.map(lambda j: kill_case(lab, *j), jobs) if r]
         with ThreadPoolExecutor(12) as ex:
             res += [r for r in ex.map(lambda k: fix_after_failed_case(lab, k), [K for K in range(1, N + 1) if not quick or K % 3 == 2 or K > N - 12]) if r]
+        res += [padded_case(lab, num_) for num_ in ('010', '018', '0009')]
         res += [concurrent_case(lab, i) for i in range(2)]
         with ThreadPoolExecutor(12) as ex:
             res += [r for r in ex.map(lambda k: hold_case(lab, k), [K for K in range(1, N + 1) if not quick or K % 3 == 1]) if r]
@@ -417,7 +441,7 @@ def main(ctx):
                                        case=dict(kill_before_command=r['K'], variant=r['variant'], history=r['events'], before=t['a'], after=t['b'], not_compiling_revisions=r['bads'])))
         cov = dict(evaluations=len(res), distinct_nontrivial=len(set((r['K'], r['variant']) for r in res)), runs_compared_with_live_model=ntie,
                    rule='one run of newpolicy.sh has %d simple commands; kill before each x {no further commit, a further good commit, '
-                        'a commit that does not compile (sampled in quick)} followed by an undisturbed run; the same after an unreverted failed compile that left the marker failed and a compiling commit (sampled in quick); two simultaneous invocations; '
+                        'a commit that does not compile (sampled in quick)} followed by an undisturbed run; the same after an unreverted failed compile that left the marker failed and a compiling commit (sampled in quick); POLICY files with numbers padded by hand; two simultaneous invocations; '
                         'a second invocation while the first is parked before command K (sampled in quick), which must not touch the database when it finds the lock taken; '
                         'distinct by (kill position, history)' % N,
                    traces_validated_against_impl=len(res), simple_commands=N,
